@@ -268,6 +268,14 @@ func check(raw json.RawMessage) fw.Result {
 	// ---- reference
 	f := flatten(doc, media, in.Hints, in.Forms)
 	memo := map[memoKey]*expectation{}
+	// second reading of declarations written after nested rules (kept in place), see Item.Trail
+	var f2 *flattener
+	memo2 := map[memoKey]*expectation{}
+	if hasTrail(doc) {
+		f2 = &flattener{doc: doc, media: media, forms: in.Forms, trailInPlace: true}
+		f2.all(in.Hints)
+		res.Count("carrier_trailing_declarations", 1)
+	}
 	byVal := map[int]string{} // value -> description of the record, for witnesses
 	describe := func(d Decl, where string) {
 		byVal[d.Val] = fmt.Sprintf("%s in %s", d, where)
@@ -357,14 +365,30 @@ func check(raw json.RawMessage) fw.Result {
 						res.Count("contests_on_pseudo_elements", 1)
 					}
 				}
-				if obs != x.value {
+				want := x.value
+				if f2 != nil {
+					if x2 := expectedFor(f2, e, pe, p, in.Hints, memo2); x2.value != x.value {
+						// the two Nesting drafts disagree here: either value is accepted
+						res.Count("trailing_declaration_readings_differ", 1)
+						switch obs {
+						case x.value:
+							res.Count("trailing_declarations_observed_hoisted", 1)
+							reportOnce(&res, "declarations after nested rules are hoisted before them (Nesting 2023 CR reading; the 2024 drafts keep them in place)")
+						case x2.value:
+							res.Count("trailing_declarations_observed_in_place", 1)
+							reportOnce(&res, "declarations after nested rules keep their place (Nesting 2024 reading)")
+							want = x2.value
+						}
+					}
+				}
+				if obs != want {
 					res.Fail(classify(x, obs, dead), witness(in, e, p, x, obs, byVal, what))
 					return res
 				}
 				if in.Layout && pe == "" {
 					for _, bs := range boxStyles[n] {
 						res.Count("box_styles_checked", 1)
-						if bobs := canonValue(bs.Get(info.key.Key())); bobs != x.value {
+						if bobs := canonValue(bs.Get(info.key.Key())); bobs != want {
 							res.Fail(classify(x, bobs, dead)+"/box", witness(in, e, p, x, bobs, byVal, "style of the box after layout.Layout"))
 							return res
 						}
@@ -388,6 +412,42 @@ func check(raw json.RawMessage) fw.Result {
 	}
 	countCarriers(doc, &res)
 	return res
+}
+
+func reportOnce(res *fw.Result, msg string) {
+	for _, r := range res.Reports {
+		if r == msg {
+			return
+		}
+	}
+	res.Reports = append(res.Reports, msg)
+}
+
+// hasTrail reports whether some rule of the document has declarations after its nested rules.
+func hasTrail(doc *Doc) bool {
+	var walk func(items []Item) bool
+	walk = func(items []Item) bool {
+		for _, it := range items {
+			if len(it.Trail) > 0 || walk(it.Nested) || walk(it.Items) {
+				return true
+			}
+		}
+		return false
+	}
+	sheets := []*Sheet{doc.UA, doc.UA2, doc.PH}
+	sheets = append(sheets, doc.User...)
+	for _, a := range doc.Author {
+		sheets = append(sheets, a.Sheet)
+	}
+	for _, s := range doc.Files {
+		sheets = append(sheets, s)
+	}
+	for _, s := range sheets {
+		if s != nil && walk(s.Items) {
+			return true
+		}
+	}
+	return false
 }
 
 // classify names the class of a disagreement: which cascade step webrender got wrong.
@@ -518,37 +578,39 @@ func countCarriers(doc *Doc, res *fw.Result) {
 // step or a winner class breaks the check instead of passing it.
 func counterFloors(tier string) map[string]int64 {
 	return map[string]int64{
-		"contests":                     35000,
-		"decided_by_origin-importance": 20000,
-		"decided_by_style-attribute":   900,
-		"decided_by_specificity":       7000,
-		"decided_by_order":             5000,
-		"dead_declarations":            40000,
-		"carrier_import":               20000,
-		"carrier_media":                18000,
-		"carrier_nested_amp":           12000,
-		"carrier_nested_relative":      8000,
-		"carrier_link":                 5000,
-		"carrier_style_attribute":      9000,
-		"carrier_hint_attribute":       7000,
-		"carrier_hints_sheet":          2000,
-		"carrier_ua_sheet":             7000,
-		"carrier_ua_forms_sheet":       500,
-		"carrier_user_sheet":           10000,
-		"carrier_pseudo_element_rule":  3000,
-		"contests_on_pseudo_elements":  200,
-		"box_styles_checked":           70000,
-		"winner_user-agent":            400,
-		"winner_user":                  500,
-		"winner_author":                9000,
-		"winner_author!important":      15000,
-		"winner_user!important":        2500,
-		"winner_hint_attribute":        200,
-		"winner_style_attribute":       2000,
-		"device_screen":                800,
-		"forms_on":                     350,
-		"kind_pair":                    45000,
-		"kind_triple":                  3000,
-		"kind_random":                  8000,
+		"contests":                      35000,
+		"decided_by_origin-importance":  20000,
+		"decided_by_style-attribute":    900,
+		"decided_by_specificity":        7000,
+		"decided_by_order":              5000,
+		"dead_declarations":             40000,
+		"carrier_import":                20000,
+		"carrier_media":                 18000,
+		"carrier_nested_amp":            12000,
+		"carrier_nested_relative":       8000,
+		"carrier_link":                  5000,
+		"carrier_style_attribute":       9000,
+		"carrier_hint_attribute":        7000,
+		"carrier_hints_sheet":           2000,
+		"carrier_ua_sheet":              7000,
+		"carrier_ua_forms_sheet":        500,
+		"carrier_user_sheet":            10000,
+		"carrier_pseudo_element_rule":   3000,
+		"contests_on_pseudo_elements":   200,
+		"box_styles_checked":            70000,
+		"winner_user-agent":             400,
+		"winner_user":                   500,
+		"winner_author":                 9000,
+		"winner_author!important":       15000,
+		"winner_user!important":         2500,
+		"winner_hint_attribute":         200,
+		"winner_style_attribute":        2000,
+		"device_screen":                 800,
+		"forms_on":                      350,
+		"kind_pair":                     55000,
+		"carrier_trailing_declarations": 2000,
+		"carrier_invalid_selector":      4000,
+		"kind_triple":                   3000,
+		"kind_random":                   8000,
 	}
 }
